@@ -24,7 +24,7 @@ META = {
 }
 ID = {3: "id", 4: "id", 6: "$id", 7: "$id"}
 KEYS = ["u", "v", "w", "z", "r", "h", "f"]
-FVALS = [2.0, 2.5, 3, "s", True, 7.5, 7.0]
+FVALS = [2.0, 2.5, 3, "s"]
 N_OPS = 6
 
 
